@@ -81,6 +81,27 @@ func boundsReport(w *World, r *Report, b *boundsAn, rule string, kinds map[strin
 			c, _ := constInt(s.operand)
 			ok = b.lenAtLeast(s.ins.(*ssa.Slice).X, s.ins.Block(), 0) >= c
 		}
+		if !ok && (s.kind == "slice" || s.kind == "index") {
+			// the operand's type and constant operands keep it below the proven minimum length of the container
+			var cont ssa.Value
+			switch x := s.ins.(type) {
+			case *ssa.Slice:
+				cont = x.X
+			case *ssa.IndexAddr:
+				cont = x.X
+			case *ssa.Index:
+				cont = x.X
+			}
+			if cont != nil {
+				if bitsN := b.maxBits(s.operand, 0); bitsN < 40 {
+					max := int64(1)<<uint(bitsN) - 1
+					l := b.lenAtLeast(cont, s.ins.Block(), 0)
+					if (s.kind == "slice" && max <= l) || (s.kind == "index" && max < l) {
+						ok = true
+					}
+				}
+			}
+		}
 		if !ok && s.kind == "index" {
 			ok = b.indexFitsArray(s.ins, s.operand) || indexIntoGrownSlice(s.ins, s.operand)
 		}
